@@ -17,10 +17,10 @@ import (
 	"context"
 	"io"
 	"net"
+	"time"
 
 	"github.com/honeytrap/honeytrap/director"
 	"github.com/honeytrap/honeytrap/event"
-	"github.com/honeytrap/honeytrap/listener"
 	"github.com/honeytrap/honeytrap/pushers"
 )
 
@@ -53,47 +53,62 @@ func (s *copyService) SetChannel(c pushers.Channel) {
 
 func (s *copyService) Handle(ctx context.Context, conn net.Conn) error {
 	defer conn.Close()
-	switch conn.(type) {
-	case *listener.DummyUDPConn:
-		defer s.c.Send(event.New(
-			EventOptions,
-			event.Category("copy"),
-			event.Type("tcp"),
-			event.SourceAddr(conn.RemoteAddr()),
-			event.DestinationAddr(conn.LocalAddr()),
-		))
 
-		conn2, err := s.d.Dial(conn)
-		if err != nil {
-			return err
-		}
-
-		defer conn2.Close()
-
-		go io.Copy(conn2, conn)
-		_, err = io.Copy(conn, conn2)
-
-		return err
-	case *net.TCPConn:
-		defer s.c.Send(event.New(
-			EventOptions,
-			event.Category("copy"),
-			event.Type("udp"),
-			event.SourceAddr(conn.RemoteAddr()),
-			event.DestinationAddr(conn.LocalAddr()),
-		))
-
-		conn2, err := s.d.Dial(conn)
-		if err != nil {
-			return err
-		}
-
-		defer conn2.Close()
-
-		go io.Copy(conn2, conn)
-		_, err = io.Copy(conn, conn2)
-		return err
-	default:
+	// the server hands services a wrapped connection: tell the transports
+	// apart by the address, not by the concrete connection type
+	network := conn.RemoteAddr().Network()
+	if network != "tcp" && network != "udp" {
 		return nil
 	}
+
+	defer s.c.Send(event.New(
+		EventOptions,
+		event.Category("copy"),
+		event.Type(network),
+		event.SourceAddr(conn.RemoteAddr()),
+		event.DestinationAddr(conn.LocalAddr()),
+	))
+
+	conn2, err := s.d.Dial(conn)
+	if err != nil {
+		return err
+	}
+
+	defer conn2.Close()
+
+	if network == "udp" {
+		// one datagram each way; do not wait for ever for a reply
+		buff := make([]byte, 65535)
+
+		n, err := conn.Read(buff)
+		if err != nil {
+			return err
+		}
+
+		if _, err := conn2.Write(buff[:n]); err != nil {
+			return err
+		}
+
+		conn2.SetReadDeadline(time.Now().Add(30 * time.Second))
+
+		n, err = conn2.Read(buff)
+		if err != nil {
+			return err
+		}
+
+		_, err = conn.Write(buff[:n])
+		return err
+	}
+
+	go func() {
+		io.Copy(conn2, conn)
+
+		// the client is done sending: tell the backend
+		if tc, ok := conn2.(*net.TCPConn); ok {
+			tc.CloseWrite()
+		}
+	}()
+
+	_, err = io.Copy(conn, conn2)
+	return err
 }
